@@ -326,7 +326,7 @@ theorem genericSet_sound (g : GenFormat) (fs : FieldSpec) (h : checkGenericSet g
     field (`fs.width ≤ valueBits` is part of the check). -/
 theorem dedicatedSet_sound (s : FormatSpec) (g : GenFormat) (x : Setter)
     (hx : x.field.isSome = true) (h : checkDedicatedSet s g x = true) :
-    ∃ fs ∈ s.fields, s.setterName fs = x.fn ∧ fs.width ≤ x.valueBits ∧
+    ∃ fs ∈ s.fields, fs.acc ≠ "" ∧ s.setterName fs = x.fn ∧ fs.width ≤ x.valueBits ∧
       ∀ (e : Endian) (m : Mem) (pdu arg v : Nat), v < 2 ^ x.valueBits →
         x.run g.table e m (some pdu) arg v = specSet m pdu fs.first fs.width (v % 2 ^ fs.width) := by
   unfold checkDedicatedSet at h
@@ -335,14 +335,14 @@ theorem dedicatedSet_sound (s : FormatSpec) (g : GenFormat) (x : Setter)
   · rename_i en v0 hf
     simp only [List.any_eq_true] at h
     obtain ⟨fs, hfs, hcond⟩ := h
-    simp only [Bool.and_eq_true, beq_iff_eq] at hcond
-    obtain ⟨⟨⟨_, hname⟩, _⟩, hrow⟩ := hcond
+    simp only [Bool.and_eq_true, beq_iff_eq, bne_iff_ne, ne_eq] at hcond
+    obtain ⟨⟨⟨hacc, hname⟩, _⟩, hrow⟩ := hcond
     split at hrow
     · rename_i i d hr
       obtain ⟨_, htab⟩ := rowFor_some g fs i d hr
       simp only [Bool.and_eq_true, beq_iff_eq, decide_eq_true_eq] at hrow
       obtain ⟨⟨⟨⟨⟨⟨hiv, hm⟩, _⟩, hi⟩, hw⟩, h64⟩, _⟩ := hrow
-      refine ⟨fs, hfs, hname, hw, ?_⟩
+      refine ⟨fs, hfs, hacc, hname, hw, ?_⟩
       intro e m pdu arg v hvlt
       obtain ⟨hv, hb, hs⟩ := descMatches_set d fs hm m pdu (v % 2 ^ x.valueBits)
       unfold Setter.run fieldArg
@@ -358,7 +358,7 @@ theorem C02_format (s : FormatSpec) (g : GenFormat) (h : checkC02 s g = true) :
         ∀ x ∈ g.genericSetters, ∀ (e : Endian) (m : Mem) (pdu v : Nat), v < 2 ^ 64 →
           x.run g.table e m (some pdu) i v
             = specSet m pdu fs.first fs.width (v % 2 ^ fs.width)) ∧
-    (∀ x ∈ g.setters, x.field.isSome = true → ∃ fs ∈ s.fields, s.setterName fs = x.fn ∧
+    (∀ x ∈ g.setters, x.field.isSome = true → ∃ fs ∈ s.fields, fs.acc ≠ "" ∧ s.setterName fs = x.fn ∧
         fs.width ≤ x.valueBits ∧
         ∀ (e : Endian) (m : Mem) (pdu arg v : Nat), v < 2 ^ x.valueBits →
           x.run g.table e m (some pdu) arg v
